@@ -10,7 +10,8 @@ CONSTS = ['ops', 'asm']          # constant tables of the models this property d
 RULE = ("every mnemonic of the instruction map except FENCE with random register numbers (all 32) and boundary + random "
         "immediates of the instruction's width (B/J even), placed at random instruction addresses (pc-relative forms); the printed "
         "form of the real instruction object is assembled by the real assembler at the same address; plus listing fix-points of "
-        "generated programs; every mnemonic additionally with the degenerate operand patterns (x0 in every position, equal registers, "
+        "generated programs; the texts DISPLAYED for the instruction inside a running simulation (listing, pipeline view of both modes, "
+        "instruction-cache table) must be its printed form or assemble to it; every mnemonic additionally with the degenerate operand patterns (x0 in every position, equal registers, "
         "zero immediate: the shapes assemblers print as nop/mv/ret/j); thorough: all 32 registers per operand position and every "
         "boundary immediate; non-trivial = every instruction instance; distinct = distinct (instruction, address)")
 ASSUMPTIONS = ["as C04"]
@@ -45,6 +46,19 @@ def rand_tok(rng, op, addr, regs=None, zero_imm=False):
     if op in ("csrrw", "csrrs", "csrrc"):
         return f"{op},{rd},{rs1},0,0,{rng.choice([0, 1, 0x300, 0xC00, 4095])}"
     return f"{op},{rd},0,0,{rng.randrange(32)},{rng.choice([0, 0x300, 0xFFF])}"
+
+
+class _WideRng:
+    """picks the alternative with the longest printed form of every immediate choice"""
+
+    def __init__(self, rng):
+        self.rng = rng
+
+    def choice(self, xs):
+        return max(xs, key=lambda x: (len(str(x)), x < 0 if isinstance(x, int) else 0))
+
+    def randrange(self, *a):
+        return self.rng.randrange(*a)
 
 
 class _ZeroRng:
@@ -89,6 +103,15 @@ def cases(rng, tier):
         for op in OPS:
             for r in range(32):
                 yield one(rng, op, 4 * rng.choice([0, 3]), (r, (r * 7 + 3) % 32, (r * 11 + 5) % 32))
+    # the texts displayed while the instruction is in a running simulation
+    for op in OPS:
+        if op in ("ecall", "ebreak") or op.startswith("csr"):
+            continue            # ecall needs a7; EBREAK/CSR execution is outside the model
+        for _ in range(2 if tier == "quick" else 12):
+            yield view_case(rng, op)
+        yield view_case(rng, op, rng.choice(CORNERS), zero_imm=True)
+        for mode in ("five", "single"):      # the longest printed forms, in both views
+            yield view_case(rng, op, (rng.randrange(10, 32), rng.randrange(10, 32), rng.randrange(10, 32)), wide=True, mode=mode)
     # listing fix-point
     for _ in range(60 if tier == "quick" else 1000):
         items, decls = rvasmgen.gen_abstract(rng, {"data": rng.random() < 0.5})
@@ -103,7 +126,24 @@ def cases(rng, tier):
         yield Case("listing", [f"asm {rvasmgen.hx(t1)}", f"asm {rvasmgen.hx(listing)}"], None, {"text": t1, "listing": listing})
 
 
+def view_case(rng, op, regs=None, zero_imm=False, wide=False, mode=None):
+    """the instruction inside a program of nops, run for a few steps in both modes with an instruction cache: every text
+    the simulation displays for it (listing, pipeline view, instruction-cache table) is judged by the oracle"""
+    k = rng.choice([0, 1, 3])
+    addr = 4 * k
+    tok = rand_tok(_WideRng(rng) if wide else rng, op, addr, regs, zero_imm)
+    prog = ["addi,0,0,0,0,0"] * k + [tok] + ["addi,0,0,0,0,0"] * 2
+    mode = mode or rng.choice(["five", "single"])
+    ispec = rng.choice(["-", "lru,0,1,1,0", "plru,1,2,2,0"])
+    lines = [f"sim.new {mode} 1 - {ispec}", "sim.prog " + " ".join(prog), "sim.reg 2 16384", "sim.snap"]
+    for _ in range(k + 2):
+        lines += ["sim.step", "sim.snap"]
+    return Case("views", lines, None, {"tok": tok, "addr": addr, "prog": prog, "mode": mode})
+
+
 def nontrivial(c):
+    if c.suite == "views":
+        return (c.meta["tok"], c.meta["addr"], c.meta["mode"], c.lines[0])
     if c.suite == "repr":
         t = c.meta["tok"].split(",")
         return (c.meta["tok"], c.meta["addr"])
@@ -121,8 +161,42 @@ def _instrs(out):
     return [] if len(head) < 3 or head[2] == "." else head[2].split(";")
 
 
+def _assembles_to(text, addr):
+    """the instruction token the real assembler builds from `text` placed at `addr` (None if it is rejected)"""
+    out = implmod.run_lines(["asm " + rvasmgen.hx("nop\n" * (addr // 4) + text)])[0]
+    ins = _instrs(out) if out.startswith("ok ") else []
+    return ins[addr // 4] if len(ins) > addr // 4 else None
+
+
+def _views_oracle(c):
+    fails = []
+    prog = c.meta["prog"]
+    im = implmod.Impl()
+    seen = set()
+    for l in c.lines:
+        o = im.run(l)
+        if o.startswith("F") or o.startswith("X"):
+            break
+        if not (l == "sim.step" or l.startswith("sim.prog")):
+            continue
+        for where, a, text in im.shown_instruction_texts():
+            if (where, a, text) in seen or a % 4 or not (0 <= a // 4 < len(prog)):
+                continue
+            seen.add((where, a, text))
+            want = prog[a // 4]
+            if text == repr(implmod.make_instr(want)):
+                continue            # the printed form itself is judged by the `repr` suite
+            got = _assembles_to(text, a)
+            if got != want:
+                fails.append(Failure("oracle", PROP, f"the {where} shows {text!r} for {want} at address {a}; assembled there it gives {got}", "view:differs"))
+                return fails
+    return fails
+
+
 def oracle(c):
     fails = []
+    if c.suite == "views":
+        return _views_oracle(c)
     if len(c.impl_out) != 2 or not c.lines[1].startswith("asm"):
         return fails
     if c.lines[0].startswith("rv.repr"):
